@@ -372,6 +372,10 @@ func (cfg *Config) getCertDuringHandshake(ctx context.Context, hello *tls.Client
 		if err == nil {
 			return loadedCert, nil
 		}
+		if !loadedCert.Empty() {
+			// a certificate was loaded, but it is expired and could not be renewed
+			return loadedCert, err
+		}
 		logger.Debug("did not load cert from storage",
 			zap.String("server_name", hello.ServerName),
 			zap.Error(err))
@@ -428,13 +432,18 @@ func (cfg *Config) loadCertFromStorage(ctx context.Context, logger *zap.Logger, 
 		zap.Bool("managed", loadedCert.managed),
 		zap.Time("expiration", expiresAt(loadedCert.Leaf)),
 		zap.String("hash", loadedCert.hash))
-	loadedCert, err = cfg.handshakeMaintenance(ctx, hello, loadedCert)
+	maintainedCert, err := cfg.handshakeMaintenance(ctx, hello, loadedCert)
 	if err != nil {
 		logger.Error("maintaining newly-loaded certificate",
 			zap.String("server_name", name),
 			zap.Error(err))
+		if loadedCert.Expired() {
+			return loadedCert, err
+		}
+		// still has time remaining, so serve it anyway
+		return loadedCert, nil
 	}
-	return loadedCert, nil
+	return maintainedCert, nil
 }
 
 // optionalMaintenance will perform maintenance on the certificate (if necessary) and
